@@ -128,7 +128,7 @@ func buildRef(m *Model) *rgraph {
 						switch {
 						case d.Wild:
 							to = g.node(d.Type+":*", rkWild, d.Type+":*")
-						case d.Rel != "":
+						case d.userset():
 							to = g.node(d.Type+"#"+d.Rel, rkRel, d.Type+"#"+d.Rel)
 						default:
 							to = g.node(d.Type, rkType, d.Type)
